@@ -787,5 +787,24 @@ pub fn generate(tier: &str, seed: u64, out: &mut Out) {
             one(out, "repeated-bom", 0, &data, &fixed_sched(3 + k, data.len()), &reference, true);
         }
     }
+    // the same in UTF-16 (and UTF-8 with BOM): the file's BOM followed by one or two U+FEFF that
+    // belong to the text, in the encoding the BOM announces; from_bytes and every streaming path
+    // must read the same first line
+    for (k, (name, text)) in texts(&mut r, 4).into_iter().enumerate() {
+        if text.len() > 3000 {
+            continue;
+        }
+        for enc in [1u8, 2, 3] {
+            for extra in [1usize, 2] {
+                let t: String = std::iter::repeat('\u{feff}').take(extra).chain(text.chars()).collect();
+                let data = crate::gen_osu::encode_as(&t, enc);
+                let reference = decode_bytes(&data);
+                out.count("file.repeated_bom_utf16");
+                other_paths(out, &format!("{name}+BOM(enc {enc})+{extra}xU+FEFF"), enc as usize, &data, &reference, file_no);
+                file_no += 1;
+                one(out, "repeated-bom-utf16", enc as usize, &data, &fixed_sched(2 + k + extra, data.len()), &reference, true);
+            }
+        }
+    }
     let _ = std::fs::remove_dir(work_dir().join("tmp"));
 }
